@@ -51,12 +51,6 @@ def InPhys (k : LeafKind) (size : Option Int) (v : Int) : Prop :=
       | .sint => -(2 ^ (s.toNat - 1)) ≤ v ∧ v < 2 ^ (s.toNat - 1)
       | .bcd => 0 ≤ v ∧ v < 10 ^ (s.toNat / 4) * 2 ^ (s.toNat % 4)
 
-/-- an environment: values of integer leaves, boolean leaves, enum leaves, by id -/
-structure Env where
-  i : Nat → Int
-  b : Nat → Bool
-  e : Nat → Int
-
 /-- arithmetic/comparison/logic on values, as the language reference defines them -/
 def evalBin : BinOp → CVal → CVal → Option CVal
   | .add, .int a, .int b => some (.int (a + b))
